@@ -6,6 +6,7 @@ mod interpose;
 mod util;
 mod world;
 mod bytesapi;
+mod oneshotip;
 mod timed;
 mod chain;
 #[cfg(feature = "async")]
@@ -14,11 +15,9 @@ mod stream;
 mod crash;
 #[cfg(not(feature = "force-inprocess"))]
 mod frag;
-#[cfg(not(feature = "force-inprocess"))]
 mod recvset;
 #[cfg(not(feature = "force-inprocess"))]
 mod res;
-#[cfg(not(feature = "force-inprocess"))]
 mod router;
 #[cfg(not(feature = "force-inprocess"))]
 mod sched;
@@ -42,6 +41,7 @@ fn main() {
     match args[1].as_str() {
         "world" => world::run(&args[2..]),
         "bytesapi" => bytesapi::run(&args[2..]),
+        "oneshotip" => oneshotip::run(&args[2..]),
         "timed" => timed::run(&args[2..]),
         "chain" => chain::run(&args[2..]),
         #[cfg(not(feature = "force-inprocess"))]
@@ -52,7 +52,6 @@ fn main() {
         "frag" => frag::run(&args[2..]),
         #[cfg(not(feature = "force-inprocess"))]
         "wire" => wire::run(&args[2..]),
-        #[cfg(not(feature = "force-inprocess"))]
         "router" => router::run(&args[2..]),
         #[cfg(not(feature = "force-inprocess"))]
         "sched" => sched::run(&args[2..]),
@@ -60,7 +59,6 @@ fn main() {
         "crash" => crash::run(&args[2..]),
         #[cfg(not(feature = "force-inprocess"))]
         "crashchild" => crash::child(&args[2..]),
-        #[cfg(not(feature = "force-inprocess"))]
         "set" => recvset::run(&args[2..]),
         #[cfg(not(feature = "force-inprocess"))]
         "res" => res::run(&args[2..]),
